@@ -64,6 +64,7 @@ type Run struct {
 	Final struct {
 		Sent, Commits, Rounds int
 	}
+	TimerArmedAtEnd string // fake election scheduler: the registration still armed after WaitUntilShutdown returned ("" = stopped)
 }
 
 const opDeadline = 6 * time.Second
@@ -112,6 +113,11 @@ func (r *Run) cancel() {
 	r.Cancelled = true
 	r.ShutdownOK, r.ShutdownTook = h.Shutdown(10 * time.Second)
 	r.AfterCancel.Sent, r.AfterCancel.Commits, r.AfterCancel.Rounds = h.NSent(), h.NCommits(), h.NRounds()
+	if h.Sch != nil && r.ShutdownOK {
+		if active, cur, stops, regs := h.Sch.Snap(); active {
+			r.TimerArmedAtEnd = fmt.Sprintf("(h=%d,v=%d) after %d RegisterOnElection and %d Stop calls", cur.H, cur.V, regs, stops)
+		}
+	}
 	// grace period: nothing may happen any more (longer than twice the largest armed real timeout)
 	grace := 20 * time.Millisecond
 	if h.Cfg.RealTimer {
